@@ -461,7 +461,7 @@ def build_fsm(desc, log, clock):
         om = desc['outmap']
         if om is not None:
             def calc_output(self):
-                v = om[self._state]
+                v = om[self.state]
                 return UNDEF if v == 'U' else v
             ns['calc_output'] = calc_output
         cls = type('GenFSM', (edzed.FSM,), ns)
@@ -638,18 +638,28 @@ def run_real(desc):
 # =============================================================== comparison
 def canon_log(log):
     """order the (instance callback, class method) pair of one hook canonically;
-    the documentation reserves the right to call them in either order"""
-    log = list(log)
+    the documentation reserves the right to call them in either order.
+    Consecutive entries of the same hook (same kind, name, event data, state, output, time) form a
+    group that is sorted by the kind of callback - pairing by adjacency alone would mix up two
+    successive events."""
+    out = []
     i = 0
-    while i + 1 < len(log):
-        a, b = log[i], log[i + 1]
-        if (a[0] == b[0] == 'hook' and a[1:2] == b[1:2] and a[3] == b[3] and a[2] != b[2]
-                and a[2] == 'cls'):
-            log[i], log[i + 1] = b, a
-            i += 2
-        else:
+    n = len(log)
+
+    def key(e):
+        return (e[1], e[3], repr(e[4]), repr(e[5:-1]), round(e[-1], 6))
+    while i < n:
+        a = log[i]
+        if a[0] != 'hook':
+            out.append(a)
             i += 1
-    return log
+            continue
+        j = i + 1
+        while j < n and log[j][0] == 'hook' and key(log[j]) == key(a):
+            j += 1
+        out.extend(sorted(log[i:j], key=lambda e: e[2]))
+        i = j
+    return out
 
 
 def same_entry(a, b):
